@@ -470,6 +470,7 @@ class Directive:
         self.loops = {}         # k -> (iter, lines)
         self.closures = []      # (kv, lines)
         self.inserts = []       # (mode, anchor, lines)
+        self.tails = []         # (kv, lines)   R9 tail binding
 
 
 def parse_template(text):
@@ -526,6 +527,8 @@ def parse_template(text):
                     d.loops[k] = (kv.get('iter'), sec_lines)
                 elif kind == 'closure':
                     d.closures.append((parse_kv(arg), sec_lines))
+                elif kind == 'tail':
+                    d.tails.append((parse_kv(arg), sec_lines))
                 elif kind == 'insert':
                     mm = re.match(r'^(before|after|entry)\s*(?:"((?:[^"\\]|\\.)*)")?\s*$', arg.strip())
                     if not mm:
@@ -561,7 +564,7 @@ def parse_template(text):
                         d.ret = arg.strip()
                     elif kw == 'attr':
                         d.attrs.append(arg.strip())
-                    elif kw in ('spec', 'loop', 'closure', 'insert'):
+                    elif kw in ('spec', 'loop', 'closure', 'insert', 'tail'):
                         section = (kw, arg)
                         sec_lines = []
                     else:
@@ -631,7 +634,7 @@ def loop_body_open(t, kw_off):
     raise LiftError("loop body not found")
 
 
-def lift_one(d, repo, canary=False):
+def lift_one(d, repo, canary=False, rename_suffix=None):
     h = d.head
     rel = h['file']
     path = os.path.join(repo, rel)
@@ -730,7 +733,7 @@ def lift_one(d, repo, canary=False):
         orig_params = body.s[p + 1:q]
         names_o = [re.sub(r'[:].*', '', x).strip().lstrip('&').replace('mut ', '').strip() for x in orig_params.split(',') if x.strip()]
         params = kv.get('params', orig_params)
-        names_n = [re.sub(r'[:].*', '', x).strip() for x in params.split(',') if x.strip()]
+        names_n = [re.sub(r'[:].*', '', x, flags=re.S).strip() for x in split_args(params, mask(params))]
         if [n.replace('mut ', '') for n in names_n] != names_o and 'params' in kv and not kv.get('renames'):
             raise LiftError("%s: closure params %r do not match source %r" % (info['name'], params, orig_params))
         # body extent
@@ -752,6 +755,35 @@ def lift_one(d, repo, canary=False):
             body.insert(be, ' }')
             body.replace(p, j, pre + '{ ')
         info['woven'].append({'kind': 'closure', 'at': at, 'lines': len(lines)})
+
+    # R9 tail binding: `EXPR }` (the function's tail expression, starting at the anchor) becomes
+    # `let verif_ret = EXPR; <ghost lines> verif_ret }` so that ghost hints can mention the returned value
+    for kv, lines in d.tails:
+        at = unesc(kv['at'])
+        offs = find_code_text(body.s, body.k, at)
+        if len(offs) != 1:
+            raise LiftError("%s: tail anchor %r found %d times" % (info['name'], at, len(offs)))
+        p = offs[0]
+        endb = len(body.s) - 1
+        expr_end = endb
+        while expr_end > p and body.s[expr_end - 1].isspace():
+            expr_end -= 1
+        # the anchor must start a top-level statement of the body and run to its end
+        depth = 0
+        for j in range(1, p):
+            if body.k[j] == CODE:
+                if body.s[j] in OPEN:
+                    depth += 1
+                elif body.s[j] in CLOSE:
+                    depth -= 1
+        if depth != 0:
+            raise LiftError("%s: tail anchor is not at the top level of the body" % info['name'])
+        if body.s[expr_end - 1] == ';':
+            raise LiftError("%s: tail anchor does not reach a tail expression" % info['name'])
+        body.insert(expr_end, ';\n' + '\n'.join(lines) + '\n    verif_ret')
+        body.insert(p, 'let verif_ret = ')
+        info['rules']['R9'] = info['rules'].get('R9', 0) + 1
+        info['woven'].append({'kind': 'tail', 'at': at, 'lines': len(lines)})
 
     for mode, anchor, lines in d.inserts:
         txt = '\n'.join(lines) + '\n'
@@ -796,6 +828,8 @@ def lift_one(d, repo, canary=False):
 
     # --- assemble
     s = sig_l.s
+    if rename_suffix:
+        s = re.sub(r'\bfn\s+(\w+)', lambda m: 'fn ' + m.group(1) + rename_suffix, s, count=1)
     if d.ret:
         # find top-level `->` after the parameter list
         kk = mask(s)
@@ -866,23 +900,28 @@ def build_unit(template_path, repo, canary=False, include_root=None):
                     raise LiftError("include %s: directives not allowed in included files" % val)
                 emit_text(v2.rstrip('\n'))
         else:
-            lt, info = lift_one(val, repo, canary=canary)
-            first_gen = len(out_lines) + 1
-            # split into lines with origin
-            cur = []
-            cur_o = None
-            for ch, o in zip(lt.s, lt.o):
-                if ch == '\n':
+            variants = [(False, None)]
+            if canary and val.head.get('canary') != 'skip':
+                variants.append((True, '__canary'))
+            for (is_canary, suffix) in variants:
+                lt, info = lift_one(val, repo, canary=is_canary, rename_suffix=suffix)
+                info['is_canary'] = is_canary
+                first_gen = len(out_lines) + 1
+                # split into lines with origin
+                cur = []
+                cur_o = None
+                for ch, o in zip(lt.s, lt.o):
+                    if ch == '\n':
+                        out_lines.append((''.join(cur), info['file'] if cur_o else None, cur_o))
+                        cur, cur_o = [], None
+                    else:
+                        cur.append(ch)
+                        if cur_o is None and o is not None and not ch.isspace():
+                            cur_o = o
+                if cur:
                     out_lines.append((''.join(cur), info['file'] if cur_o else None, cur_o))
-                    cur, cur_o = [], None
-                else:
-                    cur.append(ch)
-                    if cur_o is None and o is not None and not ch.isspace():
-                        cur_o = o
-            if cur:
-                out_lines.append((''.join(cur), info['file'] if cur_o else None, cur_o))
-            info['gen_lines'] = [first_gen, len(out_lines)]
-            infos.append(info)
+                info['gen_lines'] = [first_gen, len(out_lines)]
+                infos.append(info)
     gen = '\n'.join(l[0] for l in out_lines) + '\n'
     linemap = {}
     labels = {}
